@@ -462,24 +462,31 @@ func (s *c07State) addRules(rs []c07Rule) bool {
 	return true
 }
 
+func c07Identical(a, b c07Rule) bool {
+	return c07Equal(a, b) && fmt.Sprint(a.Paths) == fmt.Sprint(b.Paths)
+}
+
+// delRules: tree.Delete(path, the very route of the rule) - exactly one value of the node goes
+// (rule objects equal in every respect are interchangeable), and it fails if there is none.
 func (s *c07State) delRules(rs []c07Rule) bool {
 	for _, r := range rs {
 		for _, p := range r.Paths {
 			vs := s.index[p]
+			at := -1
 
-			var keep []c07Rule
+			for i, v := range vs {
+				if c07Identical(v, r) {
+					at = i
 
-			for _, v := range vs {
-				if !c07Same(v, r) {
-					keep = append(keep, v)
+					break
 				}
 			}
 
-			if len(keep) == len(vs) {
+			if at < 0 {
 				return false
 			}
 
-			s.index[p] = keep
+			s.index[p] = append(append([]c07Rule(nil), vs[:at]...), vs[at+1:]...)
 		}
 	}
 
